@@ -91,6 +91,21 @@ package resolve
 //@   ensures imp(a.Compare(b) <= 0 && b.Compare(c) <= 0, a.Compare(c) <= 0)
 //@   property C13
 
+// The edge comparator of renumber orders edges by (From, To, Requirement, Type):
+// a strict order in which two edges are incomparable only when all four agree,
+// so the sorted edge list does not depend on the input order.
+//@ lemma renumber.less.order
+//@   closure less = (*Graph).renumber$1(g *Graph)
+//@   vars i, j, k int
+//@   requires g != nil && 0 <= i && i < len(g.Edges) && 0 <= j && j < len(g.Edges) && 0 <= k && k < len(g.Edges)
+//@   ensures !less(i, i)
+//@   ensures imp(less(i, j), !less(j, i))
+//@   ensures imp(less(i, j) && less(j, k), less(i, k))
+//@   ensures imp(!less(i, j) && !less(j, i), g.Edges[i].From == g.Edges[j].From && g.Edges[i].To == g.Edges[j].To &&
+//@           g.Edges[i].Requirement == g.Edges[j].Requirement && g.Edges[i].Type.Compare(g.Edges[j].Type) == 0)
+//@   ensures imp(!less(i, j) && !less(j, k), !less(i, k))
+//@   property C13
+
 // ---------------------------------------------------------------------------
 // C14: the in-memory client reports what was last added.
 // Verified as function contracts (VC mode): AddVersion stores the requirement
@@ -156,3 +171,75 @@ package resolve
 //@   ensures iff(result1 == nil, has(lc.imports, vk))
 //@   ensures imp(result1 == nil, result0 == lc.imports[vk])
 //@   property C14
+
+// ---------------------------------------------------------------------------
+// C12: the comparators used to order version lists.
+// semver's comparison is used through the order laws that C01 proves in
+// util/semver (assumed here, for versions of one system: both lists hold
+// versions parsed by the same System).
+
+//@ opaque ::semver.(*Version).Compare
+//@ lemma semver.Compare.preorder
+//@   vars a, b *semver.Version
+//@   unfold ::semver.(*Version).Compare
+//@   requires a != nil && b != nil
+//@   ensures -1 <= a.Compare(b) && a.Compare(b) <= 1 && a.Compare(b) == -b.Compare(a) && a.Compare(a) == 0
+//@   pattern a.Compare(b)
+//@   assumed proved as C01 in util/semver for versions of one packaging system
+//@ lemma semver.Compare.trans
+//@   vars a, b, c *semver.Version
+//@   unfold ::semver.(*Version).Compare
+//@   requires a != nil && b != nil && c != nil
+//@   ensures imp(a.Compare(b) <= 0 && b.Compare(c) <= 0, a.Compare(c) <= 0)
+//@   pattern a.Compare(b); b.Compare(c)
+//@   assumed proved as C01 in util/semver for versions of one packaging system
+
+// sortNPMVersions: parsable versions first (by semver, ties by string), then
+// the unparsable ones by string: a strict order, total on distinct version strings.
+//@ lemma sortNPMVersions.less.order
+//@   closure less = sortNPMVersions$1(vs []Version, vers map[VersionKey]*semver.Version)
+//@   vars i, j, k int
+//@   requires 0 <= i && i < len(vs) && 0 <= j && j < len(vs) && 0 <= k && k < len(vs)
+//@   ensures !less(i, i)
+//@   ensures imp(less(i, j), !less(j, i))
+//@   ensures imp(less(i, j) && less(j, k), less(i, k))
+//@   ensures imp(!less(i, j) && !less(j, i), vs[i].Version == vs[j].Version)
+//@   property C12
+
+// SortVersions (Maven, PyPI): by semver order, ties by string.
+//@ lemma SortVersions.less.order
+//@   closure less = SortVersions$1(vs []Version, vers map[VersionKey]*semver.Version)
+//@   vars i, j, k int
+//@   requires 0 <= i && i < len(vs) && 0 <= j && j < len(vs) && 0 <= k && k < len(vs)
+//@   requires vers[vs[i].VersionKey] != nil && vers[vs[j].VersionKey] != nil && vers[vs[k].VersionKey] != nil
+//@   ensures !less(i, i)
+//@   ensures imp(less(i, j), !less(j, i))
+//@   ensures imp(less(i, j) && less(j, k), less(i, k))
+//@   ensures imp(!less(i, j) && !less(j, i), vs[i].Version == vs[j].Version)
+//@   property C12
+
+// The constraint matcher is used by symbol: a pure function of the constraint
+// object and the version string (assumed: it reads only semver's own data).
+//@ opaque ::semver.(*Constraint).Match
+//@ func ::semver.(*Constraint).Match
+//@   reads H:semver.* E:semver.* E:string E:uint8 M:map[string]* G:semver.*
+
+// The constraint parser builds new objects only (assumed frame; it is verified
+// for panic-freedom in util/semver under C04, not for this frame).
+//@ func ::semver.System.ParseConstraint
+//@   modifies alloc H:semver.* H:*semver.* H:[]* H:bool H:int E:semver.* E:string E:uint8 E:any B:* M:map[string]* G:semver.*
+//@   trusted
+
+// matchRequirement keeps exactly the versions that satisfy the requirement
+// (by constraint, or by string equality when the requirement does not parse),
+// in the order of the sorted list.
+//@ func matchRequirement
+//@   loop 0
+//@     invariant fresh(matches)
+//@     invariant forall(k, 0, len(matches), imp(constraint != nil, constraint.Match(matches[k].Version)) &&
+//@                                          imp(constraint == nil, matches[k].Version == req.Version))
+//@     invariant forall(j, 0, rangeidx + 1,
+//@               imp((constraint != nil && constraint.Match(versions[j].Version)) || (constraint == nil && versions[j].Version == req.Version),
+//@                   exists(k, 0, len(matches), matches[k] == versions[j])))
+//@     invariant forall(k, 0, len(matches), exists(j, 0, rangeidx + 1, matches[k] == versions[j]))
+//@   property C12
